@@ -124,33 +124,49 @@ var rawEPs = []rawEP{
 	}, func(db ethdb.Database, fx *rawFix) bool {
 		return rawdb.ReadWorkShareForDonorHash(db, fx.engine, fx.woPost.AuxPow().Header().BlockHash()) != nil
 	}},
-	{"rawdb.ReadBlockForWorkShareHash", func(db ethdb.Database, fx *rawFix) { writeBlock(db, fx); rawdb.WriteBlockHashForWorkShareHash(db, fx.wo) },
+	{"rawdb.ReadBlockForWorkShareHash", func(db ethdb.Database, fx *rawFix) {
+		writeBlock(db, fx)
+		rawdb.WriteBlockHashForWorkShareHash(db, fx.wo)
+	},
 		func(db ethdb.Database, fx *rawFix) bool {
 			return rawdb.ReadBlockForWorkShareHash(db, common.BytesToHash(fill(32, 0x77))) != nil
 		}},
 	{"rawdb.ReadWorkObjectHeader", writeBlock, func(db ethdb.Database, fx *rawFix) bool {
 		return rawdb.ReadWorkObjectHeader(db, fx.num, fx.hash, types.BlockObject) != nil
 	}},
-	{"rawdb.ReadWorkObject", writeBlock, func(db ethdb.Database, fx *rawFix) bool { return rawdb.ReadWorkObject(db, fx.num, fx.hash, types.BlockObject) != nil }},
+	{"rawdb.ReadWorkObject", writeBlock, func(db ethdb.Database, fx *rawFix) bool {
+		return rawdb.ReadWorkObject(db, fx.num, fx.hash, types.BlockObject) != nil
+	}},
 	{"rawdb.ReadWorkObject/postfork", func(db ethdb.Database, fx *rawFix) {
 		rawdb.WriteWorkObject(db, fx.hash, fx.woPost, types.BlockObject, common.ZONE_CTX)
 	}, func(db ethdb.Database, fx *rawFix) bool {
 		return rawdb.ReadWorkObject(db, fx.woPost.NumberU64(common.ZONE_CTX), fx.hash, types.BlockObject) != nil
 	}},
-	{"rawdb.ReadWorkObjectWithWorkShares", writeBlock, func(db ethdb.Database, fx *rawFix) bool { return rawdb.ReadWorkObjectWithWorkShares(db, fx.num, fx.hash) != nil }},
+	{"rawdb.ReadWorkObjectWithWorkShares", writeBlock, func(db ethdb.Database, fx *rawFix) bool {
+		return rawdb.ReadWorkObjectWithWorkShares(db, fx.num, fx.hash) != nil
+	}},
 	{"rawdb.ReadWorkObjectHeaderOnly", writeBlock, func(db ethdb.Database, fx *rawFix) bool {
 		return rawdb.ReadWorkObjectHeaderOnly(db, fx.num, fx.hash, types.BlockObject) != nil
 	}},
-	{"rawdb.ReadWorkObjectBody", writeBlock, func(db ethdb.Database, fx *rawFix) bool { return rawdb.ReadWorkObjectBody(db, fx.hash, types.BlockObject) != nil }},
-	{"rawdb.ReadWorkObjectBodyHeaderOnly", writeBlock, func(db ethdb.Database, fx *rawFix) bool { return rawdb.ReadWorkObjectBodyHeaderOnly(db, fx.hash) != nil }},
+	{"rawdb.ReadWorkObjectBody", writeBlock, func(db ethdb.Database, fx *rawFix) bool {
+		return rawdb.ReadWorkObjectBody(db, fx.hash, types.BlockObject) != nil
+	}},
+	{"rawdb.ReadWorkObjectBodyHeaderOnly", writeBlock, func(db ethdb.Database, fx *rawFix) bool {
+		return rawdb.ReadWorkObjectBodyHeaderOnly(db, fx.hash) != nil
+	}},
 	{"rawdb.ReadBestPendingHeader", func(db ethdb.Database, fx *rawFix) { rawdb.WriteBestPendingHeader(db, fx.wo) },
 		func(db ethdb.Database, fx *rawFix) bool { return rawdb.ReadBestPendingHeader(db) != nil }},
 	{"rawdb.ReadHeadsHashes", func(db ethdb.Database, fx *rawFix) { rawdb.WriteHeadsHashes(db, common.Hashes{fx.hash, {8}}) },
 		func(db ethdb.Database, fx *rawFix) bool { return len(rawdb.ReadHeadsHashes(db)) > 0 }},
 	{"rawdb.ReadRawReceipts", func(db ethdb.Database, fx *rawFix) { rawdb.WriteReceipts(db, fx.hash, fx.num, fx.receipts) },
 		func(db ethdb.Database, fx *rawFix) bool { return rawdb.ReadRawReceipts(db, fx.hash, fx.num) != nil }},
-	{"rawdb.ReadReceipts", func(db ethdb.Database, fx *rawFix) { writeBlock(db, fx); rawdb.WriteReceipts(db, fx.hash, fx.num, fx.receipts) },
-		func(db ethdb.Database, fx *rawFix) bool { return rawdb.ReadReceipts(db, fx.hash, fx.num, fx.cfg) != nil }},
+	{"rawdb.ReadReceipts", func(db ethdb.Database, fx *rawFix) {
+		writeBlock(db, fx)
+		rawdb.WriteReceipts(db, fx.hash, fx.num, fx.receipts)
+	},
+		func(db ethdb.Database, fx *rawFix) bool {
+			return rawdb.ReadReceipts(db, fx.hash, fx.num, fx.cfg) != nil
+		}},
 	{"rawdb.ReadHeadBlock", func(db ethdb.Database, fx *rawFix) { writeBlock(db, fx); rawdb.WriteHeadBlockHash(db, fx.hash) },
 		func(db ethdb.Database, fx *rawFix) bool { return rawdb.ReadHeadBlock(db) != nil }},
 	{"rawdb.ReadPendingEtxs", func(db ethdb.Database, fx *rawFix) {
@@ -161,7 +177,9 @@ var rawEPs = []rawEP{
 	}, func(db ethdb.Database, fx *rawFix) bool { return rawdb.ReadPendingEtxsRollup(db, fx.hash) != nil }},
 	{"rawdb.ReadManifest", func(db ethdb.Database, fx *rawFix) { rawdb.WriteManifest(db, fx.hash, types.BlockManifest{{1}, {2}}) },
 		func(db ethdb.Database, fx *rawFix) bool { return rawdb.ReadManifest(db, fx.hash) != nil }},
-	{"rawdb.ReadInterlinkHashes", func(db ethdb.Database, fx *rawFix) { rawdb.WriteInterlinkHashes(db, fx.hash, common.Hashes{{1}, {2}, {3}, {4}}) },
+	{"rawdb.ReadInterlinkHashes", func(db ethdb.Database, fx *rawFix) {
+		rawdb.WriteInterlinkHashes(db, fx.hash, common.Hashes{{1}, {2}, {3}, {4}})
+	},
 		func(db ethdb.Database, fx *rawFix) bool { return rawdb.ReadInterlinkHashes(db, fx.hash) != nil }},
 	{"rawdb.ReadBloom", func(db ethdb.Database, fx *rawFix) { rawdb.WriteBloom(db, fx.hash, types.BytesToBloom(fill(256, 3))) },
 		func(db ethdb.Database, fx *rawFix) bool { return rawdb.ReadBloom(db, fx.hash) != nil }},
@@ -171,13 +189,20 @@ var rawEPs = []rawEP{
 		func(db ethdb.Database, fx *rawFix) bool { return rawdb.ReadInboundEtxs(db, fx.hash) != nil }},
 	{"rawdb.ReadAddressUTXOs", func(db ethdb.Database, fx *rawFix) {
 		rawdb.WriteAddressUTXOs(db, db, map[[20]byte][]*types.OutpointAndDenomination{fx.addr20: fx.outs})
-	}, func(db ethdb.Database, fx *rawFix) bool { o, err := rawdb.ReadAddressUTXOs(db, fx.addr20); return err == nil && len(o) > 0 }},
-	{"rawdb.ReadOutpointsForAddressAtBlock", func(db ethdb.Database, fx *rawFix) { rawdb.WriteOutpointsForAddressAndBlockHeight(db, fx.addr20, fx.outs) },
+	}, func(db ethdb.Database, fx *rawFix) bool {
+		o, err := rawdb.ReadAddressUTXOs(db, fx.addr20)
+		return err == nil && len(o) > 0
+	}},
+	{"rawdb.ReadOutpointsForAddressAtBlock", func(db ethdb.Database, fx *rawFix) {
+		rawdb.WriteOutpointsForAddressAndBlockHeight(db, fx.addr20, fx.outs)
+	},
 		func(db ethdb.Database, fx *rawFix) bool {
 			o, err := rawdb.ReadOutpointsForAddressAtBlock(db, fx.addr20)
 			return err == nil && len(o) > 0
 		}},
-	{"rawdb.ReadOutpointsForAddress", func(db ethdb.Database, fx *rawFix) { rawdb.WriteOutpointsForAddressAndBlockHeight(db, fx.addr20, fx.outs) },
+	{"rawdb.ReadOutpointsForAddress", func(db ethdb.Database, fx *rawFix) {
+		rawdb.WriteOutpointsForAddressAndBlockHeight(db, fx.addr20, fx.outs)
+	},
 		func(db ethdb.Database, fx *rawFix) bool {
 			o, err := rawdb.ReadOutpointsForAddress(db, fx.addr)
 			return err == nil && len(o) > 0
@@ -199,12 +224,25 @@ var rawEPs = []rawEP{
 		rawdb.WriteTokenChoicesSet(db, fx.hash, &tc)
 	}, func(db ethdb.Database, fx *rawFix) bool { return rawdb.ReadTokenChoicesSet(db, fx.hash) != nil }},
 	{"rawdb.ReadSpentUTXOs", func(db ethdb.Database, fx *rawFix) { rawdb.WriteSpentUTXOs(db, fx.hash, fx.sutxos) },
-		func(db ethdb.Database, fx *rawFix) bool { o, err := rawdb.ReadSpentUTXOs(db, fx.hash); return err == nil && len(o) > 0 }},
+		func(db ethdb.Database, fx *rawFix) bool {
+			o, err := rawdb.ReadSpentUTXOs(db, fx.hash)
+			return err == nil && len(o) > 0
+		}},
 	{"rawdb.ReadTrimmedUTXOs", func(db ethdb.Database, fx *rawFix) { rawdb.WriteTrimmedUTXOs(db, fx.hash, fx.sutxos) },
-		func(db ethdb.Database, fx *rawFix) bool { o, err := rawdb.ReadTrimmedUTXOs(db, fx.hash); return err == nil && len(o) > 0 }},
-	{"rawdb.ReadCreatedUTXOKeys", func(db ethdb.Database, fx *rawFix) { rawdb.WriteCreatedUTXOKeys(db, fx.hash, [][]byte{fill(40, 1), fill(40, 2)}) },
-		func(db ethdb.Database, fx *rawFix) bool { o, err := rawdb.ReadCreatedUTXOKeys(db, fx.hash); return err == nil && len(o) > 0 }},
-	{"rawdb.ReadCreatedCoinbaseLockupKeys", func(db ethdb.Database, fx *rawFix) { rawdb.WriteCreatedCoinbaseLockupKeys(db, fx.hash, [][]byte{fill(47, 1)}) },
+		func(db ethdb.Database, fx *rawFix) bool {
+			o, err := rawdb.ReadTrimmedUTXOs(db, fx.hash)
+			return err == nil && len(o) > 0
+		}},
+	{"rawdb.ReadCreatedUTXOKeys", func(db ethdb.Database, fx *rawFix) {
+		rawdb.WriteCreatedUTXOKeys(db, fx.hash, [][]byte{fill(40, 1), fill(40, 2)})
+	},
+		func(db ethdb.Database, fx *rawFix) bool {
+			o, err := rawdb.ReadCreatedUTXOKeys(db, fx.hash)
+			return err == nil && len(o) > 0
+		}},
+	{"rawdb.ReadCreatedCoinbaseLockupKeys", func(db ethdb.Database, fx *rawFix) {
+		rawdb.WriteCreatedCoinbaseLockupKeys(db, fx.hash, [][]byte{fill(47, 1)})
+	},
 		func(db ethdb.Database, fx *rawFix) bool {
 			o, err := rawdb.ReadCreatedCoinbaseLockupKeys(db, fx.hash)
 			return err == nil && len(o) > 0
@@ -212,15 +250,23 @@ var rawEPs = []rawEP{
 	{"rawdb.ReadDeletedCoinbaseLockups", func(db ethdb.Database, fx *rawFix) {
 		var k [rawdb.CoinbaseLockupKeyLength]byte
 		rawdb.WriteDeletedCoinbaseLockups(db, fx.hash, []rawdb.DeletedCoinbaseLockup{{Key: k[:], Value: fill(30, 1)}})
-	}, func(db ethdb.Database, fx *rawFix) bool { o, err := rawdb.ReadDeletedCoinbaseLockups(db, fx.hash); return err == nil && len(o) > 0 }},
+	}, func(db ethdb.Database, fx *rawFix) bool {
+		o, err := rawdb.ReadDeletedCoinbaseLockups(db, fx.hash)
+		return err == nil && len(o) > 0
+	}},
 	{"rawdb.ReadPrunedUTXOKeys", func(db ethdb.Database, fx *rawFix) { rawdb.WritePrunedUTXOKeys(db, 7, [][]byte{fill(40, 1)}) },
-		func(db ethdb.Database, fx *rawFix) bool { o, err := rawdb.ReadPrunedUTXOKeys(db, 7); return err == nil && len(o) > 0 }},
+		func(db ethdb.Database, fx *rawFix) bool {
+			o, err := rawdb.ReadPrunedUTXOKeys(db, 7)
+			return err == nil && len(o) > 0
+		}},
 	{"rawdb.ReadUTXOSetSize", func(db ethdb.Database, fx *rawFix) { rawdb.WriteUTXOSetSize(db, fx.hash, 77) },
 		func(db ethdb.Database, fx *rawFix) bool { return rawdb.ReadUTXOSetSize(db, fx.hash) != 0 }},
 	{"rawdb.ReadLastTrimmedBlock", func(db ethdb.Database, fx *rawFix) { rawdb.WriteLastTrimmedBlock(db, fx.hash, 77) },
 		func(db ethdb.Database, fx *rawFix) bool { return rawdb.ReadLastTrimmedBlock(db, fx.hash) != 0 }},
 	{"rawdb.ReadUtxoToBlockHeight", func(db ethdb.Database, fx *rawFix) { rawdb.WriteUtxoToBlockHeight(db, common.Hash{6}, 2, 77) },
-		func(db ethdb.Database, fx *rawFix) bool { return rawdb.ReadUtxoToBlockHeight(db, common.Hash{6}, 2) != 0 }},
+		func(db ethdb.Database, fx *rawFix) bool {
+			return rawdb.ReadUtxoToBlockHeight(db, common.Hash{6}, 2) != 0
+		}},
 	{"rawdb.ReadCoinbaseLockup", func(db ethdb.Database, fx *rawFix) {
 		rawdb.WriteCoinbaseLockup(db, fx.addr, fx.addr, 1, 3, big.NewInt(1000), 55, 2, fx.addr)
 	}, func(db ethdb.Database, fx *rawFix) bool {
@@ -233,7 +279,11 @@ var rawEPs = []rawEP{
 		_, _, _, _, _, _, err := rawdb.ReadSupplyAnalyticsForBlock(db, fx.hash)
 		return err == nil
 	}},
-	{"rawdb.ReadTxLookupEntry+ReadTransaction", func(db ethdb.Database, fx *rawFix) { writeBlock(db, fx); rawdb.WriteCanonicalHash(db, fx.hash, fx.num); rawdb.WriteTxLookupEntriesByBlock(db, fx.wo, common.ZONE_CTX) },
+	{"rawdb.ReadTxLookupEntry+ReadTransaction", func(db ethdb.Database, fx *rawFix) {
+		writeBlock(db, fx)
+		rawdb.WriteCanonicalHash(db, fx.hash, fx.num)
+		rawdb.WriteTxLookupEntriesByBlock(db, fx.wo, common.ZONE_CTX)
+	},
 		func(db ethdb.Database, fx *rawFix) bool {
 			tx, _, _, _ := rawdb.ReadTransaction(db, fx.txs[0].Hash())
 			return tx != nil
